@@ -103,7 +103,8 @@ func VH_C13_WorkDivConst() {
 // result is never zero, and cumulative work strictly increases
 func VH_C13_FinalCutClamp() {
 	n, s := vhWorld("w")
-	_ = n
+	n.BlockInterval = 10 * time.Minute // a concrete interval (the symbolic product interval*height is not linear)
+	vh.Assume(s.Index.Height < 1<<32)
 	vh.Assume(s.childHeight() >= s.Network.HardforkV2.FinalCutHeight)
 	// I6: nonzero difficulty, bounded so that TotalWork + Difficulty fits
 	zero := Work{}
@@ -112,8 +113,12 @@ func VH_C13_FinalCutClamp() {
 	var ts time.Time
 	vh.Fill("timestamp", &ts)
 	var d Work
-	if vh.Panics(func() { d = adjustDifficultyFinalCut(s, ts) }) {
-		vh.Reach("panic-path")
+	if msg := vh.PanicMsg(func() { d = adjustDifficultyFinalCut(s, ts) }); msg != "" {
+		// the only panics retargeting may raise are arithmetic overflows of
+		// values beyond the I6 envelope; a division by zero is never acceptable
+		vh.Assert(msg != "Work.div64: division by zero", "retargeting divides by zero")
+		vh.Assert(msg != "Work.sub: underflow", "retargeting underflows")
+		vh.Reach("overflow-path")
 		return
 	}
 	maxAdjust := s.Difficulty.div64(250).max(oneWork)
@@ -126,7 +131,9 @@ func VH_C13_FinalCutClamp() {
 }
 
 func VH_C13_V2Clamp() {
-	_, s := vhWorld("w")
+	n, s := vhWorld("w")
+	n.BlockInterval = 10 * time.Minute
+	vh.Assume(s.Index.Height < 1<<32)
 	vh.Assume(vh.And(s.childHeight() >= s.Network.HardforkV2.AllowHeight, s.childHeight() < s.Network.HardforkV2.FinalCutHeight))
 	zero := Work{}
 	vh.Assume(s.Difficulty != zero)
@@ -134,8 +141,10 @@ func VH_C13_V2Clamp() {
 	var ts time.Time
 	vh.Fill("timestamp", &ts)
 	var d Work
-	if vh.Panics(func() { d = adjustDifficultyV2(s, ts) }) {
-		vh.Reach("panic-path")
+	if msg := vh.PanicMsg(func() { d = adjustDifficultyV2(s, ts) }); msg != "" {
+		vh.Assert(msg != "Work.div64: division by zero", "retargeting divides by zero")
+		vh.Assert(msg != "Work.sub: underflow", "retargeting underflows")
+		vh.Reach("overflow-path")
 		return
 	}
 	maxAdjust := s.Difficulty.div64(250)
@@ -147,7 +156,9 @@ func VH_C13_V2Clamp() {
 // applying only the header gives exactly the proof-of-work state of applying
 // the full block (v2 eras)
 func VH_C13_HeaderVsBlock() {
-	_, s := vhWorld("w")
+	n, s := vhWorld("w")
+	n.BlockInterval = 10 * time.Minute
+	vh.Assume(s.Index.Height < 1<<32)
 	vh.Assume(s.childHeight() >= s.Network.HardforkV2.AllowHeight)
 	vh.Assume(s.childHeight() >= s.Network.HardforkV2.RequireHeight)
 	zero := Work{}
@@ -250,5 +261,44 @@ func VH_C13_HeavierAsymmetric() {
 		return
 	}
 	vh.Assert(!(ab && ba), "two states are each sufficiently heavier than the other")
+	vh.Reach("end")
+}
+
+// FinalCut / v2 retargeting from a concrete proof-of-work state (difficulty
+// 2^40, Oak work 2^50) with symbolic Oak time, block timestamp and height:
+// never divides by zero, never underflows, result within the clamp, never zero
+func VH_C13_RetargetTotal() {
+	n := vhNetwork("net")
+	n.BlockInterval = 10 * time.Minute
+	s := vhState("s", n)
+	s.Difficulty, s.OakWork, s.TotalWork = Work{}, Work{}, Work{}
+	s.Difficulty.n[26] = 1 // 2^40
+	s.OakWork.n[25] = 4    // 2^50
+	s.TotalWork.n[20] = 1
+	vh.Assume(vh.And(s.Index.Height >= 11, s.Index.Height < 1<<32))
+	vh.Assume(vh.And(s.OakTime > -(1<<50), s.OakTime < 1<<50))
+	var ts time.Time
+	vh.Fill("timestamp", &ts)
+	era := vh.Choice("era", 2)
+	var d Work
+	msg := ""
+	if era == 0 {
+		msg = vh.PanicMsg(func() { d = adjustDifficultyFinalCut(s, ts) })
+	} else {
+		msg = vh.PanicMsg(func() { d = adjustDifficultyV2(s, ts) })
+	}
+	if msg != "" {
+		vh.Assert(msg != "Work.div64: division by zero", "retargeting divides by zero")
+		vh.Assert(msg != "Work.sub: underflow", "retargeting underflows")
+		vh.Reach("overflow-path")
+		return
+	}
+	maxAdjust := s.Difficulty.div64(250)
+	if era == 0 {
+		maxAdjust = maxAdjust.max(oneWork)
+	}
+	vh.Assert(d.Cmp(s.Difficulty.add(maxAdjust)) <= 0, "difficulty increased beyond the 0.4% clamp")
+	vh.Assert(d.Cmp(s.Difficulty.sub(maxAdjust)) >= 0, "difficulty decreased beyond the 0.4% clamp")
+	vh.Assert(d != (Work{}), "difficulty became zero")
 	vh.Reach("end")
 }
